@@ -53,6 +53,11 @@ def r8(ctx, cfg):
     prefix / its upper bound when the contract gives none (an unbounded end only for a namespace that has no upper bound)"""
     from rules import C07
     C07.r3(ctx, cfg, R="C08.R8")
+    # ... and what keeps two contracts' windows apart is the view's key arithmetic as a whole: every point access goes to
+    # prefix ++ key, the prefix is a prefix-free code of the namespace path, the window's end is the prefix's upper bound
+    C07.r2(ctx, cfg, R="C08.R8")
+    C07.r4(ctx, cfg, R="C08.R8")
+    C07.r5(ctx, cfg, R="C08.R8")
 
 
 def r7(ctx, cfg):
@@ -61,8 +66,7 @@ def r7(ctx, cfg):
     the end bound as exclusive and must record every write/removal in its read view (otherwise a neighbour's pending
     write, or a value already removed, shows up in the contract's reads)"""
     from rules import C06
-    C06.r5(ctx, cfg, R="C08.R7")
-    C06.r2(ctx, cfg, R="C08.R7")
+    C06.overlay_premise(ctx, cfg, "C08.R7")     # (and what the contract iterates is what the dump lists: merged ranges, point reads)
 
 
 def r1(ctx, cfg):
